@@ -9,6 +9,8 @@ use std::io::Write;
 #[path = "../reader_parse.rs"]
 mod rp;
 use rp::*;
+#[path = "../reader_num.rs"]
+mod rn;
 
 fn ty_name(t: &TokenType) -> &'static str {
     match t {
@@ -239,6 +241,72 @@ fn main() {
                 for c in cuts {
                     let p = &t[..c];
                     writeln!(out, "parse-text {} {}\t{}", enc_text(p), oracle_text(p), impl_parse_text(p)).unwrap();
+                }
+            }
+        }
+        // well-formed data: every token-boundary prefix against the token-level specification
+        "cut-wf" => {
+            let n: usize = args[2].parse().unwrap();
+            let mut rng = Rng::new(seed ^ 0x13);
+            for _ in 0..n {
+                let t = gen_wf_program(&mut rng, 2, 4);
+                let tokens = match lex::scan(&t) {
+                    Ok(ts) => ts,
+                    Err(_) => continue,
+                };
+                let mut cuts: Vec<usize> = vec![t.len()];
+                for tok in &tokens {
+                    cuts.push(tok.span.0);
+                    cuts.push(tok.span.1);
+                }
+                cuts.sort();
+                cuts.dedup();
+                for c in cuts {
+                    let p = &t[..c];
+                    let e = enc_text(p);
+                    writeln!(out, "parse-text {} {}\t{}\tspec-first-datum {}", e, oracle_text(p), impl_parse_text(p), e).unwrap();
+                }
+            }
+        }
+        "readall-wf" => {
+            let n: usize = args[2].parse().unwrap();
+            let mut rng = Rng::new(seed ^ 0x14);
+            for _ in 0..n {
+                let t = gen_wf_program(&mut rng, 5, 3);
+                let e = enc_text(&t);
+                writeln!(out, "read-all {} {}\t{}\tspec-count-data {}", e, oracle_read_all(&t), impl_read_all(&t), e).unwrap();
+            }
+        }
+        // ---- C16
+        "c16-rt" => {
+            let n: usize = args[2].parse().unwrap();
+            let mut rng = Rng::new(seed ^ 0x16);
+            let mut vm = marwood::vm::Vm::new();
+            for _ in 0..n {
+                let z = rn::random_number(&mut rng);
+                let exact = !matches!(z, marwood::number::Number::Float(_));
+                let radix = if exact { *rng.pick(&[2u32, 8, 10, 16]) } else { 10 };
+                writeln!(out, "{}", rn::roundtrip_line(&mut vm, &z, radix)).unwrap();
+            }
+        }
+        "c16-proc" => {
+            let n: usize = args[2].parse().unwrap();
+            let mut rng = Rng::new(seed ^ 0x17);
+            let mut vm = marwood::vm::Vm::new();
+            for _ in 0..n {
+                writeln!(out, "{}", rn::proc_line(&mut vm, &mut rng)).unwrap();
+            }
+        }
+        "c16-lit" => {
+            let n: usize = args[2].parse().unwrap();
+            let mut rng = Rng::new(seed ^ 0x18);
+            let mut vm = marwood::vm::Vm::new();
+            for _ in 0..n {
+                let z = rn::random_number(&mut rng);
+                let exact = !matches!(z, marwood::number::Number::Float(_));
+                let radix = if exact { *rng.pick(&[2u32, 8, 10, 16]) } else { 10 };
+                if let Some(l) = rn::literal_line(&mut vm, &z, radix) {
+                    writeln!(out, "{}", l).unwrap();
                 }
             }
         }
